@@ -43,30 +43,43 @@ Proof.
   rewrite H. reflexivity.
 Qed.
 
-(** * The level search terminates on a level whose closer is absent *)
+(** * The level search terminates on a level whose closer and opener are both absent *)
+
+Lemma long_opener_length n : length (long_opener n) = S (S n).
+Proof. unfold long_opener. cbn [length]. rewrite app_length, repeat_length. cbn. lia. Qed.
 
 Lemma find_level_ok : forall fuel s n, (length s <= fuel + n)%nat ->
-  find_sub (long_closer (find_level fuel s n)) s = false.
+  find_sub (long_closer (find_level fuel s n)) s = false /\
+  find_sub (long_opener (find_level fuel s n)) s = false.
 Proof.
   induction fuel as [|f IH]; intros s n Hlen; cbn [find_level].
-  - destruct (find_sub (long_closer n) s) eqn:E; [|reflexivity].
-    apply find_sub_length in E. rewrite long_closer_length in E. lia.
-  - destruct (find_sub (long_closer n) s) eqn:E; [|exact E].
-    apply IH. lia.
+  - split.
+    + destruct (find_sub (long_closer n) s) eqn:E; [|reflexivity].
+      apply find_sub_length in E. rewrite long_closer_length in E. lia.
+    + destruct (find_sub (long_opener n) s) eqn:E; [|reflexivity].
+      apply find_sub_length in E. rewrite long_opener_length in E. lia.
+  - destruct (find_sub (long_closer n) s || find_sub (long_opener n) s) eqn:E.
+    + apply IH. lia.
+    + apply orb_false_iff in E. exact E.
 Qed.
 
-Lemma comment_level_ok s : find_sub (long_closer (comment_level s)) s = false.
+Lemma comment_level_ok s :
+  find_sub (long_closer (comment_level s)) s = false /\ find_sub (long_opener (comment_level s)) s = false.
 Proof. unfold comment_level. apply find_level_ok. lia. Qed.
 
-(** the level is the least one: every lower closer occurs in the text *)
+(** the level is the least one: every lower level has its closer or its opener in the text *)
 Lemma find_level_least : forall fuel s n m, (n <= m)%nat -> (m < find_level fuel s n)%nat ->
-  find_sub (long_closer m) s = true.
+  find_sub (long_closer m) s || find_sub (long_opener m) s = true.
 Proof.
   induction fuel as [|f IH]; intros s n m Hnm Hm; cbn [find_level] in Hm; [lia|].
-  destruct (find_sub (long_closer n) s) eqn:E; [|lia].
+  destruct (find_sub (long_closer n) s || find_sub (long_opener n) s) eqn:E; [|lia].
   destruct (Nat.eq_dec n m) as [->|Hne]; [exact E|].
   apply (IH s (S n) m); [lia|exact Hm].
 Qed.
+
+Lemma comment_level_least s m : (m < comment_level s)%nat ->
+  find_sub (long_closer m) s || find_sub (long_opener m) s = true.
+Proof. intros H. apply (find_level_least (S (length s)) s 0 m); [lia|exact H]. Qed.
 
 (** * The reference lexer on an opener *)
 
@@ -199,14 +212,55 @@ Qed.
 
 (** * The main theorems *)
 
-Definition multi_line (text : bytes) : Prop := has_lf text = true.
+Lemma skip_eqs_count_eqs s n : skip_eqs s = snd (count_eqs s n).
+Proof.
+  revert n; induction s as [|c s IH]; intros n; [reflexivity|].
+  destruct (N.eq_dec c 61) as [->|Hc].
+  - cbn [skip_eqs count_eqs]. apply IH.
+  - destruct c as [|p]; [reflexivity|].
+    do 6 (destruct p as [p|p|]; try reflexivity). all: try (exfalso; apply Hc; reflexivity).
+    all: destruct p; reflexivity.
+Qed.
 
-(** multi-line text: closed whatever follows *)
-Theorem multiline_comment_closed : forall text follow, has_lf text = true ->
+(** [starts_with_long_bracket] of the rule = "a long-bracket opener is at the head" of the reference lexer *)
+Lemma starts_agrees t :
+  starts_with_long_bracket t = match long_open t with Some _ => true | None => false end.
+Proof.
+  unfold starts_with_long_bracket, long_open.
+  destruct t as [|c t]; [reflexivity|].
+  destruct (N.eq_dec c 91) as [->|Hc].
+  - rewrite (skip_eqs_count_eqs t 0). destruct (count_eqs t 0) as [n t1]. cbn [snd].
+    destruct t1 as [|d t1]; [reflexivity|].
+    destruct (N.eq_dec d 91) as [->|Hd]; [reflexivity|].
+    destruct d as [|p]; [reflexivity|].
+    do 7 (destruct p as [p|p|]; try reflexivity). all: exfalso; apply Hd; reflexivity.
+  - destruct c as [|p]; [reflexivity|].
+    do 7 (destruct p as [p|p|]; try reflexivity). all: exfalso; apply Hc; reflexivity.
+Qed.
+
+Lemma block_form_false text : block_form text = false ->
+  has_lf text = false /\ has_cr text = false /\ long_open text = None.
+Proof.
+  unfold block_form. intros H. apply orb_false_iff in H as [H H3]. apply orb_false_iff in H as [H1 H2].
+  repeat split; try assumption. rewrite starts_agrees in H3. destruct (long_open text); [discriminate|reflexivity].
+Qed.
+
+Lemma comment_of_block text : text <> [] -> block_form text = true ->
+  comment_of text = [45; 45] ++ long_opener (comment_level text) ++ [10] ++ text ++ [10] ++ long_closer (comment_level text).
+Proof. intros Hne H. unfold comment_of. destruct text; [congruence|]. rewrite H. reflexivity. Qed.
+
+Lemma comment_of_line text : text <> [] -> block_form text = false -> comment_of text = [45; 45] ++ text.
+Proof. intros Hne H. unfold comment_of. destruct text; [congruence|]. rewrite H. reflexivity. Qed.
+
+Lemma block_form_nonempty text : block_form text = true -> text <> [].
+Proof. intros H E. subst. discriminate. Qed.
+
+(** texts written in the long form (a line break, a carriage return, or a leading opener): closed
+    whatever follows *)
+Theorem block_comment_closed : forall text follow, block_form text = true ->
   lex_comment (comment_of text ++ follow) = Some (length (comment_of text)).
 Proof.
-  intros text follow Hlf. unfold comment_of.
-  destruct text as [|c0 text0] eqn:Et; [discriminate|]. rewrite <- Et in *. rewrite Hlf.
+  intros text follow Hb. rewrite (comment_of_block text (block_form_nonempty _ Hb) Hb).
   set (n := comment_level text).
   cbn [app]. unfold lex_comment.
   replace (long_opener n ++ 10 :: text ++ 10 :: long_closer n)
@@ -224,100 +278,122 @@ Proof.
   - rewrite find_sub_cons. apply orb_false_iff. split; [reflexivity | apply comment_level_ok].
 Qed.
 
-(** single-line text outside the two recorded classes: closed when followed by a line break or nothing *)
-Theorem singleline_comment_closed : forall text follow, text <> [] -> has_lf text = false ->
-  Known_opener text = false -> Known_cr text = false -> line_follow follow = true ->
+(** all other texts: closed when followed by a line break or nothing *)
+Theorem line_comment_closed : forall text follow, text <> [] -> block_form text = false ->
+  line_follow follow = true ->
   lex_comment (comment_of text ++ follow) = Some (length (comment_of text)).
 Proof.
-  intros text follow Hne Hlf Hop Hcr Hf. unfold comment_of.
-  destruct text as [|c0 text0] eqn:Et; [congruence|]. rewrite <- Et in *. rewrite Hlf.
+  intros text follow Hne Hb Hf. rewrite (comment_of_line text Hne Hb).
+  destruct (block_form_false text Hb) as [Hlf [Hcr Hop]].
   cbn [app]. unfold lex_comment.
-  unfold Known_opener in Hop. rewrite Hlf in Hop. cbn [negb andb] in Hop.
-  unfold Known_cr in Hcr. rewrite Hlf in Hcr. cbn [negb andb] in Hcr.
-  destruct (long_open text) eqn:E; [discriminate|].
-  rewrite (long_open_app_follow _ _ Hf E).
+  rewrite (long_open_app_follow _ _ Hf Hop).
   rewrite line_len_app; [reflexivity | apply existsb_is_eol; assumption | exact Hf].
 Qed.
 
+(** no carve-out any more (before /repo commit d1a6e5c: texts starting with a long-bracket opener
+    and texts with a carriage return had to be excluded) *)
 Theorem comment_closed : forall text follow, text <> [] ->
-  Known_opener text = false -> Known_cr text = false ->
-  (has_lf text = true \/ line_follow follow = true) ->
+  (block_form text = true \/ line_follow follow = true) ->
   lex_comment (comment_of text ++ follow) = Some (length (comment_of text)).
 Proof.
-  intros text follow Hne Hop Hcr Hf. destruct (has_lf text) eqn:Hlf.
-  - apply multiline_comment_closed. exact Hlf.
-  - destruct Hf as [Hf|Hf]; [discriminate|]. apply singleline_comment_closed; assumption.
+  intros text follow Hne Hf. destruct (block_form text) eqn:Hb.
+  - apply block_comment_closed. exact Hb.
+  - destruct Hf as [Hf|Hf]; [discriminate|]. apply line_comment_closed; assumption.
 Qed.
 
-(** ** the carve-outs are genuine: witnesses *)
+(** ** Lua 5.1: no "[[" nested in a level-0 long comment *)
 
-(** text "[[ hello" at the start of "print(1)\n": the comment is never closed *)
-Theorem comment_closed_refuted_opener : exists text follow, text <> [] /\ Known_cr text = false /\
-  line_follow follow = true /\ Known_opener text = true /\
-  lex_comment (comment_of text ++ follow) = None.
+Lemma find_sub_lf_wrap p x : p <> [] -> existsb (N.eqb 10) p = false ->
+  find_sub p x = false -> find_sub p (10 :: x ++ [10]) = false.
 Proof.
-  exists [91; 91; 32; 104; 101; 108; 108; 111], [10; 112; 114; 105; 110; 116; 40; 49; 41; 10].
-  repeat split; try reflexivity. discriminate.
+  intros Hne Hp Hx.
+  assert (Hhd : forall w, prefix_b p (10 :: w) = false).
+  { intros w. destruct p as [|c p]; [congruence|]. cbn [existsb] in Hp. apply orb_false_iff in Hp as [Hc _].
+    cbn [prefix_b]. rewrite N.eqb_sym in Hc. rewrite Hc. reflexivity. }
+  rewrite find_sub_cons, Hhd. cbn [orb].
+  induction x as [|c x IH].
+  - cbn [app]. rewrite find_sub_cons, Hhd. cbn [orb find_sub]. destruct p; [congruence|reflexivity].
+  - rewrite find_sub_cons in Hx. apply orb_false_iff in Hx as [H1 H2].
+    cbn [app]. rewrite find_sub_cons. apply orb_false_iff. split; [|apply IH, H2].
+    destruct (prefix_b p (c :: x ++ [10])) eqn:E; [|reflexivity].
+    change (c :: x ++ [10]) with ((c :: x) ++ 10 :: []) in E.
+    apply prefix_before_lf in E; [congruence|exact Hp].
 Qed.
 
-(** ... or is closed by a "]]" of the code: text "[[" before "\nf(a[b[1]])\n" swallows "f(a[b[1" *)
-Theorem comment_closed_refuted_opener_swallows : exists text follow, text <> [] /\
-  Known_cr text = false /\ line_follow follow = true /\ Known_opener text = true /\
-  exists k, lex_comment (comment_of text ++ follow) = Some k /\ (length (comment_of text) < k)%nat.
+Lemma firstn_app_exact {T} (a b : list T) : firstn (length a) (a ++ b) = a.
+Proof. induction a as [|x a IH]; [destruct b; reflexivity|]. cbn [length app firstn]. rewrite IH. reflexivity. Qed.
+
+Theorem comment_closed_51 : forall text follow, text <> [] ->
+  (block_form text = true \/ line_follow follow = true) ->
+  lex_comment51 (comment_of text ++ follow) = Some (length (comment_of text)).
 Proof.
-  exists [91; 91], [10; 102; 40; 97; 91; 98; 91; 49; 93; 93; 41; 10].
-  repeat split; try reflexivity; try discriminate.
-  eexists. split; [vm_compute; reflexivity | vm_compute; lia].
+  intros text follow Hne Hf. pose proof (comment_closed text follow Hne Hf) as H.
+  destruct (block_form text) eqn:Hb.
+  2:{ (* a short comment: the two lexers are the same function *)
+      rewrite (comment_of_line text Hne Hb) in *. cbn [app] in *. unfold lex_comment51. unfold lex_comment in H.
+      destruct (block_form_false text Hb) as [_ [_ Hop]].
+      destruct Hf as [Hf|Hf]; [discriminate|].
+      rewrite (long_open_app_follow _ _ Hf Hop) in *. exact H. }
+  rewrite (comment_of_block text Hne Hb) in *.
+  set (n := comment_level text) in *.
+  cbn [app] in *. unfold lex_comment51. unfold lex_comment in H.
+  replace (long_opener n ++ 10 :: text ++ 10 :: long_closer n)
+    with (long_opener n ++ (10 :: text ++ 10 :: long_closer n)) in * by reflexivity.
+  rewrite <- app_assoc in *. rewrite long_open_opener in *.
+  replace ((10 :: text ++ 10 :: long_closer n) ++ follow)
+    with ((10 :: text) ++ 10 :: long_closer n ++ follow) in *.
+  2:{ cbn [app]. rewrite <- app_assoc. reflexivity. }
+  assert (Hfe : find_end (long_closer n) ((10 :: text) ++ 10 :: long_closer n ++ follow)
+                = Some (S (length text) + 1 + length (long_closer n))%nat).
+  { change (S (length text)) with (length (10 :: text)). apply find_end_own_closer; [apply long_closer_nonempty|apply long_closer_no_lf|].
+    rewrite find_sub_cons. apply orb_false_iff. split; [reflexivity|apply comment_level_ok]. }
+  rewrite Hfe in *. cbn [option_map] in H.
+  destruct (Nat.eqb n 0) eqn:En; [|exact H].
+  apply Nat.eqb_eq in En. cbn [andb].
+  assert (Hnest : find_sub [91; 91] (firstn (S (length text) + 1 + length (long_closer n) - 2)%nat
+                                            ((10 :: text) ++ 10 :: long_closer n ++ follow)) = false).
+  { rewrite long_closer_length, En.
+    replace (S (length text) + 1 + 2 - 2)%nat with (length ((10 :: text) ++ [10])) by (rewrite app_length; cbn [length]; lia).
+    replace ((10 :: text) ++ 10 :: long_closer 0 ++ follow) with (((10 :: text) ++ [10]) ++ long_closer 0 ++ follow)
+      by (rewrite <- app_assoc; reflexivity).
+    rewrite firstn_app_exact. cbn [app].
+    apply find_sub_lf_wrap; [discriminate|reflexivity|].
+    pose proof (comment_level_ok text) as [_ Ho]. fold n in Ho. rewrite En in Ho. exact Ho. }
+  rewrite Hnest. exact H.
 Qed.
 
-(** text "a\rprint(2)": the comment ends at the CR and "print(2)" is code *)
-Theorem comment_closed_refuted_cr : exists text follow, text <> [] /\ Known_opener text = false /\
-  line_follow follow = true /\ Known_cr text = true /\
-  exists k, lex_comment (comment_of text ++ follow) = Some k /\ (k < length (comment_of text))%nat.
-Proof.
-  exists [97; 13; 112; 114; 105; 110; 116; 40; 50; 41], [10].
-  repeat split; try reflexivity; try discriminate.
-  eexists. split; [vm_compute; reflexivity | vm_compute; lia].
-Qed.
+(** the texts that used to break out (recorded before d1a6e5c) are now held by a long comment *)
+Example formerly_opener_text :
+  let text := of_string "[[ hello" in
+  comment_of text = of_string "--[=[" ++ [10] ++ text ++ [10] ++ of_string "]=]" /\
+  lex_comment (comment_of text ++ of_string "print(1)]]") = Some (length (comment_of text)).
+Proof. vm_compute. split; reflexivity. Qed.
 
-(** the CR class is tight: every such text (that is not also an opener) ends its comment early *)
-Lemma line_len_cr x follow : has_cr x = true -> (line_len (x ++ follow) < length x)%nat.
-Proof.
-  unfold has_cr. induction x as [|c x IH]; cbn [existsb]; [discriminate|].
-  intros H. cbn [app line_len length]. unfold is_eol.
-  destruct (c =? 10) eqn:E10; [cbn; lia|].
-  destruct (c =? 13) eqn:E13; [cbn; lia|].
-  cbn [orb]. apply orb_true_iff in H as [H|H].
-  - rewrite N.eqb_sym in H. congruence.
-  - apply IH in H. lia.
-Qed.
+Example formerly_cr_text :
+  let text := [97; 13; 112; 114; 105; 110; 116; 40; 50; 41] in   (* "a\rprint(2)" *)
+  comment_of text = of_string "--[[" ++ [10] ++ text ++ [10] ++ of_string "]]" /\
+  lex_comment (comment_of text ++ [10]) = Some (length (comment_of text)).
+Proof. vm_compute. split; reflexivity. Qed.
 
-Theorem known_cr_always_fails : forall text follow, Known_cr text = true -> Known_opener text = false ->
-  line_follow follow = true ->
-  exists k, lex_comment (comment_of text ++ follow) = Some k /\ (k < length (comment_of text))%nat.
-Proof.
-  intros text follow Hcr Hop Hf. unfold Known_cr in Hcr. apply andb_true_iff in Hcr as [Hlf Hcr].
-  apply negb_true_iff in Hlf. unfold Known_opener in Hop. rewrite Hlf in Hop. cbn [negb andb] in Hop.
-  unfold comment_of. destruct text as [|c0 text0] eqn:Et; [discriminate|]. rewrite <- Et in *. rewrite Hlf.
-  cbn [app]. unfold lex_comment.
-  destruct (long_open text) eqn:E; [discriminate|].
-  rewrite (long_open_app_follow _ _ Hf E).
-  eexists. split; [reflexivity|]. cbn [length]. pose proof (line_len_cr text follow Hcr). lia.
-Qed.
+(** "a\n[[b" is written at level 1: "[[" would be nested in a level-0 bracket (Lua 5.1) *)
+Example nested_opener_level :
+  comment_level [97; 10; 91; 91; 98] = 1%nat.
+Proof. vm_compute. reflexivity. Qed.
 
 (** ** the text is inside the comment, verbatim *)
 Theorem text_inside : forall text, text <> [] ->
   exists pre post, comment_of text = pre ++ text ++ post /\
-    (has_lf text = false -> pre = [45; 45] /\ post = []) /\
-    (has_lf text = true -> pre = [45; 45] ++ long_opener (comment_level text) ++ [10] /\
-                           post = [10] ++ long_closer (comment_level text)).
+    (block_form text = false -> pre = [45; 45] /\ post = []) /\
+    (block_form text = true -> pre = [45; 45] ++ long_opener (comment_level text) ++ [10] /\
+                               post = [10] ++ long_closer (comment_level text)).
 Proof.
-  intros text Hne. unfold comment_of. destruct text as [|c0 text0] eqn:Et; [congruence|]. rewrite <- Et in *.
-  destruct (has_lf text) eqn:Hlf.
-  - exists ([45; 45] ++ long_opener (comment_level text) ++ [10]), ([10] ++ long_closer (comment_level text)).
+  intros text Hne. destruct (block_form text) eqn:Hb.
+  - rewrite (comment_of_block text Hne Hb).
+    exists ([45; 45] ++ long_opener (comment_level text) ++ [10]), ([10] ++ long_closer (comment_level text)).
     split; [|split; [discriminate|intros _; split; reflexivity]].
     rewrite <- !app_assoc. reflexivity.
-  - exists [45; 45], []. split; [rewrite app_nil_r; reflexivity|].
+  - rewrite (comment_of_line text Hne Hb).
+    exists [45; 45], []. split; [rewrite app_nil_r; reflexivity|].
     split; [intros _; split; reflexivity|discriminate].
 Qed.
 
@@ -350,11 +426,12 @@ Theorem shift_exact : forall text, text <> [] ->
 Proof.
   intros text Hne. unfold shift_amount, start_insertion, lines_count.
   assert (Hc : exists s c, comment_of text = s ++ [c] /\ c <> 10).
-  { unfold comment_of. destruct text as [|c0 text0] eqn:Et; [congruence|]. rewrite <- Et in *.
-    destruct (has_lf text) eqn:Hlf.
-    - exists ([45; 45] ++ long_opener (comment_level text) ++ [10] ++ text ++ [10] ++ 93 :: repeat 61 (comment_level text)), 93.
+  { destruct (block_form text) eqn:Hb.
+    - rewrite (comment_of_block text Hne Hb).
+      exists ([45; 45] ++ long_opener (comment_level text) ++ [10] ++ text ++ [10] ++ 93 :: repeat 61 (comment_level text)), 93.
       split; [|discriminate]. unfold long_closer. rewrite <- !app_assoc. cbn [app]. reflexivity.
-    - destruct (has_lf_last_not_lf text Hne Hlf) as [s' [c [E Hc]]].
+    - rewrite (comment_of_line text Hne Hb). destruct (block_form_false text Hb) as [Hlf _].
+      destruct (has_lf_last_not_lf text Hne Hlf) as [s' [c [E Hc]]].
       exists ([45; 45] ++ s'), c. split; [|exact Hc]. rewrite E. rewrite <- app_assoc. reflexivity. }
   destruct Hc as [s [c [E Hc]]]. rewrite E.
   destruct (s ++ [c]) eqn:E2; [destruct s; discriminate|]. rewrite <- E2.
@@ -363,51 +440,20 @@ Qed.
 
 (** ** the generator's classification is the reference lexer's (since /repo commit fc507f0) *)
 
-Lemma skip_eqs_count_eqs s n : skip_eqs s = snd (count_eqs s n).
-Proof.
-  revert n; induction s as [|c s IH]; intros n; [reflexivity|].
-  destruct (N.eq_dec c 61) as [->|Hc].
-  - cbn [skip_eqs count_eqs]. apply IH.
-  - destruct c as [|p]; [reflexivity|].
-    do 6 (destruct p as [p|p|]; try reflexivity). all: try (exfalso; apply Hc; reflexivity).
-    all: destruct p; reflexivity.
-Qed.
-
 (** a comment is taken for a long comment exactly when a long-bracket opener follows "--" *)
 Theorem classifier_agrees : forall t,
   is_multiline_comment (45 :: 45 :: t) = match long_open t with Some _ => true | None => false end.
-Proof.
-  intros t. unfold is_multiline_comment, long_open.
-  destruct t as [|c t]; [reflexivity|].
-  destruct (N.eq_dec c 91) as [->|Hc].
-  - rewrite (skip_eqs_count_eqs t 0). destruct (count_eqs t 0) as [n t1]. cbn [snd].
-    destruct t1 as [|d t1]; [reflexivity|].
-    destruct (N.eq_dec d 91) as [->|Hd]; [reflexivity|].
-    destruct d as [|p]; [reflexivity|].
-    do 7 (destruct p as [p|p|]; try reflexivity). all: exfalso; apply Hd; reflexivity.
-  - destruct c as [|p]; [reflexivity|].
-    do 7 (destruct p as [p|p|]; try reflexivity). all: exfalso; apply Hc; reflexivity.
-Qed.
+Proof. intros t. rewrite <- starts_agrees. reflexivity. Qed.
 
-Theorem multiline_recognised : forall text, has_lf text = true ->
-  is_single_line_comment (comment_of text) = false.
+(** ... and it is the form the rule chose (both directions, no exception) *)
+Theorem comment_form_recognised : forall text, text <> [] ->
+  is_single_line_comment (comment_of text) = negb (block_form text).
 Proof.
-  intros text Hlf. unfold comment_of.
-  destruct text as [|c0 text0] eqn:Et; [discriminate|]. rewrite <- Et in *. rewrite Hlf.
-  unfold is_single_line_comment. apply negb_false_iff. cbn [app].
-  rewrite classifier_agrees. rewrite long_open_opener. reflexivity.
-Qed.
-
-(** every single-line text that is not itself an opener gives a comment the generator treats
-    as a line comment (before fc507f0 this failed for texts like "[a[") *)
-Theorem singleline_recognised : forall text, text <> [] -> has_lf text = false ->
-  Known_opener text = false -> is_single_line_comment (comment_of text) = true.
-Proof.
-  intros text Hne Hlf Hop. unfold comment_of.
-  destruct text as [|c0 text0] eqn:Et; [congruence|]. rewrite <- Et in *. rewrite Hlf.
-  unfold is_single_line_comment. apply negb_true_iff. cbn [app]. rewrite classifier_agrees.
-  unfold Known_opener in Hop. rewrite Hlf in Hop. cbn [negb andb] in Hop.
-  destruct (long_open text); [discriminate|reflexivity].
+  intros text Hne. unfold is_single_line_comment. f_equal.
+  destruct (block_form text) eqn:Hb.
+  - rewrite (comment_of_block text Hne Hb). cbn [app]. rewrite classifier_agrees, long_open_opener. reflexivity.
+  - rewrite (comment_of_line text Hne Hb). cbn [app]. rewrite classifier_agrees.
+    destruct (block_form_false text Hb) as [_ [_ Hop]]. rewrite Hop. reflexivity.
 Qed.
 
 (** * Trivia filters keep the code tokens and remove exactly the selected comments *)
